@@ -118,8 +118,9 @@ func BuildMethodCall(codeFunc *CodeFunction, item ast.Stmt, fields []CodeField, 
 	case *ast.ExprStmt:
 		BuildMethodCallExprStmt(it, codeFunc, fields, imports, packageName, localVars)
 	case *ast.DeferStmt:
-		call = BuildCallFromExpr(it.Call, codeFunc, fields, imports, packageName, localVars)
-		codeFunc.FunctionCalls = append(codeFunc.FunctionCalls, call)
+		// recorded here; not returned, or a caller walking a func literal would record it a second time
+		deferCall := BuildCallFromExpr(it.Call, codeFunc, fields, imports, packageName, localVars)
+		codeFunc.FunctionCalls = append(codeFunc.FunctionCalls, deferCall)
 	case *ast.AssignStmt:
 		vars := BuildLocalVars(it, codeFunc, imports)
 		localVars = vars
